@@ -25,7 +25,7 @@ _sent = G.benign_line()
 
 
 def _block():
-    para = st.lists(_sent, min_size=1, max_size=2)
+    para = st.lists(_sent, min_size=1, max_size=4)
     fields = st.lists(st.builds(lambda n, t: f":param p{n}: {t}", st.integers(0, 9), _sent), min_size=1, max_size=3)
     typed = st.lists(st.builds(lambda n, t: f":type p{n}: {t}", st.integers(0, 9), st.sampled_from(["str", "list", "bool"])),
                      min_size=1, max_size=2)
@@ -55,7 +55,7 @@ def rest_doc():
             lines += b
         return lines
     return st.fixed_dictionaries({"lines": st.lists(_block(), min_size=0, max_size=4).map(join),
-                                  "form": st.just("leader"), "mpos": st.just(0), "rest": st.just(True)})
+                                  "form": st.sampled_from(["leader", "leader", "mixed"]), "mpos": st.just(0), "rest": st.just(True)})
 
 
 def strategy(tier):
